@@ -65,15 +65,35 @@ type Tap struct {
 }
 
 func (t *Tap) feed(p []byte) {
+	// The tap is part of the oracles: it parses the documented layout itself
+	// (28-byte header: big-endian magic 0x42dead42, little-endian id, size,
+	// version, type, flags, service, object, action) and copies the payload, so
+	// that what it records depends neither on the repository's Message.Read nor
+	// on buffers the code under test may reuse.
 	t.rest = append(t.rest, p...)
-	for len(t.rest) >= net.HeaderSize {
-		var m net.Message
-		r := bytes.NewReader(t.rest)
-		if err := m.Read(r); err != nil {
+	le32 := func(b []byte) uint32 { return uint32(b[0]) | uint32(b[1])<<8 | uint32(b[2])<<16 | uint32(b[3])<<24 }
+	for len(t.rest) >= 28 {
+		b := t.rest
+		if b[0] != 0x42 || b[1] != 0xde || b[2] != 0xad || b[3] != 0x42 {
 			return
 		}
-		t.rest = t.rest[len(t.rest)-r.Len():]
-		t.Frames = append(t.Frames, Frame{m.Header, m.Payload, vrt.Step()})
+		size := int(le32(b[8:12]))
+		if size < 0 || len(b) < 28+size {
+			return
+		}
+		var h net.Header
+		h.Magic = 0x42dead42
+		h.ID = le32(b[4:8])
+		h.Size = uint32(size)
+		h.Version = uint16(b[12]) | uint16(b[13])<<8
+		h.Type = b[14]
+		h.Flags = b[15]
+		h.Service = le32(b[16:20])
+		h.Object = le32(b[20:24])
+		h.Action = le32(b[24:28])
+		payload := append([]byte{}, b[28:28+size]...)
+		t.rest = append([]byte(nil), b[28+size:]...)
+		t.Frames = append(t.Frames, Frame{h, payload, vrt.Step()})
 	}
 }
 
